@@ -202,8 +202,20 @@ def strat(allr=False):
     return st.fixed_dictionaries(d)
 
 
+def enum_small(tier):
+    sels = [{'k': 'present', 'i': 0}, {'k': 'present', 'i': 1}, {'k': 'present2', 'i': 0}, {'k': 'dup', 'i': 1}]
+    for names, depth, text in gen.small_scopes(tier):
+        for i, p in enumerate(gen.small_values(names, depth, text)):
+            if not p['ops'] or (tier == 'quick' and i % 3):
+                continue
+            yield {'p': p if i % 7 else dict(p, cls='s'), 'sel': sels[i % 4], 'how': i % 3}
+
+
 SUBS = [
     Sub('find', eval_case, strategy=strat, quick=800, thorough=12000),
+    Sub('small_exhaustive', lambda c: eval_case(c, True), enumerate=enum_small,
+        rule='every value reachable from a plain text by <= 2 apply/remove steps over {red, blue, bold} on 3 characters and by <= 3 steps over {red, blue} on 2 (thorough: 3) characters (quick: every third) x every (start, end) in {None} U [-len-2, len+2] x reverse for a setting present in the value',
+        exhaustive_note='values of the small scopes x all bounds x reverse'),
     Sub('allranges', lambda c: eval_case(c, True), strategy=lambda: strat(True), quick=60, thorough=800,
         rule='every (start, end) in {None} U [-len-2, len+2] x reverse for each generated value and selection'),
 ]
